@@ -701,7 +701,11 @@ impl UnifiedCommandExecutor {
             }
             
             StringCommand::DecrBy { key, decrement } => {
-                let result = self.storage.incr_by(db, key, -(decrement))?;
+                let increment = match decrement.checked_neg() {
+                    Some(v) => v,
+                    None => return Ok(RespFrame::error("ERR increment or decrement would overflow")),
+                };
+                let result = self.storage.incr_by(db, key, increment)?;
                 Ok(RespFrame::Integer(result))
             }
             
